@@ -65,6 +65,7 @@ func runC06(c *Ctx) {
 	c06R2(c, p)
 	c06R3(c, p)
 	c06R4(c, p)
+	c06R6(c, p)
 	if c.Tier == "thorough" {
 		if sp := c.need("spsa"); sp != nil {
 			c06R5(c, p, sp)
@@ -84,12 +85,7 @@ func c06R3(c *Ctx, p *Prog) {
 		c.Anchor(rule, "search.(*Search).iterativeDeepen")
 		return
 	}
-	var mv *ssa.Alloc
-	for _, l := range fn.Locals {
-		if l.Comment == "move" {
-			mv = l
-		}
-	}
+	mv := namedResult(fn, 1)
 	if mv == nil {
 		c.Undec(rule, "iterativeDeepen#result", fn.Pos(), "named result `move` not found")
 		return
@@ -143,8 +139,7 @@ func c06R3(c *Ctx, p *Prog) {
 	}
 	c.Floor(rule, nFallback, 1, "fallback adoptions")
 	// the fallback exists on the abort path: a return reachable from abort()==true must be preceded by the fallback when move == 0
-	a, b := callsIn(fn, "movegen.GenNoisy"), callsIn(fn, "movegen.GenNotNoisy")
-	c.Check(len(a) == 1 && len(b) == 1, rule, "iterativeDeepen#fallback-generates-all", fn.Pos(), "the fallback generates both the noisy and the quiet half (a position whose only legal moves are quiet still gets a move)")
+	c.Check(bothHalvesTogether(fn), rule, "iterativeDeepen#fallback-generates-all", fn.Pos(), "the fallback generates both the noisy and the quiet half (a position whose only legal moves are quiet still gets a move)")
 }
 
 // C06.R4: integers parsed from external text are range-checked before a narrowing conversion.
@@ -571,5 +566,86 @@ func init() {
 		Mutant{Tier: "thorough", Name: "C06.R5-row-published-under-sibling-name", Prop: "C06", File: "params/spsa.go",
 			Old: "{&HistAdjReduction, \"HistAdjReduction\", 4, 10},", New: "{&HistAdjRange, \"HistAdjReduction\", 4, 10},",
 			Expect: "C06.R5/tunable:"},
+	)
+}
+
+// namedResult returns the local that holds the i-th named result of fn.
+func namedResult(fn *ssa.Function, i int) *ssa.Alloc {
+	res := fn.Signature.Results()
+	if res == nil || i >= res.Len() || res.At(i).Name() == "" {
+		return nil
+	}
+	for _, l := range fn.Locals {
+		if l.Comment == res.At(i).Name() {
+			return l
+		}
+	}
+	return nil
+}
+
+// C06.R6: a value read from the transposition table is returned by alphaBeta
+// only in non-PV nodes. The root is a PV node: a table cutoff there returns
+// without searching a move, the PV stays empty and the search answers with the
+// null move (or a stale one) on a non-final root.
+func c06R6(c *Ctx, p *Prog) {
+	const rule = "C06.R6"
+	fn := p.Func("search.(*Search).alphaBeta")
+	if fn == nil {
+		c.Anchor(rule, "search.(*Search).alphaBeta")
+		return
+	}
+	// the node-type parameter: the one compared against constants in the TT block; identify by type name Node (alias of byte): last byte-typed param
+	var nt *ssa.Parameter
+	for _, pr := range fn.Params {
+		if b, ok := pr.Type().Underlying().(*types.Basic); ok && b.Kind() == types.Uint8 {
+			nt = pr
+		}
+	}
+	pvConst, okc := p.pkgConstInt("search.PVNode")
+	if nt == nil || !okc {
+		c.Undec(rule, "alphaBeta#node-type", fn.Pos(), "node-type parameter or PVNode constant not found")
+		return
+	}
+	n := 0
+	allInstrs(fn, func(in ssa.Instruction) {
+		ret, ok := in.(*ssa.Return)
+		if !ok || len(ret.Results) != 1 {
+			return
+		}
+		fromTT := false
+		for v := range backSlice(ret.Results[0], sliceOpts{}) {
+			if isCallValueTo(v, "transp.(*entry).Value") {
+				fromTT = true
+			}
+		}
+		if !fromTT {
+			return
+		}
+		n++
+		guarded := false
+		for _, ce := range controllingConds(ret.Block()) {
+			bo, ok := ce.Cond.(*ssa.BinOp)
+			if !ok || stripConv(bo.X) != ssa.Value(nt) {
+				continue
+			}
+			k, isc := constOf(bo.Y)
+			if isc && k == pvConst && ((bo.Op == token.NEQ && ce.True) || (bo.Op == token.EQL && !ce.True)) {
+				guarded = true
+			}
+		}
+		c.Check(guarded, rule, fmt.Sprintf("alphaBeta#tt-cutoff@%d", n), ret.Pos(), "a transposition-table value is returned only in non-PV nodes (the root always searches its moves)")
+	})
+	c.Floor(rule, n, 3, "transposition-table cutoffs in alphaBeta")
+}
+
+func init() {
+	addMutants(
+		Mutant{Name: "C06.R6-exact-tt-cutoff-in-pv-nodes", Prop: "C06", File: "search/search.go",
+			Old: "\t\tif nType != PVNode && transpE.Depth() >= d {\n\t\t\ttpVal := transpE.Value(ply)\n\n\t\t\tswitch transpE.Type() {\n\n\t\t\tcase transp.Exact:\n\t\t\t\treturn tpVal\n\n\t\t\tcase transp.LowerBound:\n\t\t\t\tif tpVal >= beta {",
+			New: "\t\tif transpE.Depth() >= d {\n\t\t\ttpVal := transpE.Value(ply)\n\n\t\t\tswitch transpE.Type() {\n\n\t\t\tcase transp.Exact:\n\t\t\t\treturn tpVal\n\n\t\t\tcase transp.LowerBound:\n\t\t\t\tif nType != PVNode && tpVal >= beta {",
+			Expect: "C06.R6/alphaBeta#tt-cutoff"},
+		Mutant{Name: "C06.R3-fallback-quiets-only-without-captures", Prop: "C06", File: "search/search.go",
+			Old: "\t\t\t\t\tmovegen.GenNotNoisy(s.ms, b)\n\t\t\t\t\tmoves := s.ms.Frame()\n", New: "\t\t\t\t\tif len(s.ms.Frame()) == 0 {\n\t\t\t\t\t\tmovegen.GenNotNoisy(s.ms, b)\n\t\t\t\t\t}\n\t\t\t\t\tmoves := s.ms.Frame()\n",
+			Expect: "C06.R3/iterativeDeepen#fallback-generates-all"},
 	)
 }
